@@ -6,10 +6,10 @@
 #include <string.h>
 #include "sx.h"
 
-#undef malloc
-#undef calloc
-#undef realloc
-#undef free
+/* the native binary is linked with --wrap=malloc,calloc,realloc,free,_Znwm,_Znam,_ZdlPv,_ZdaPv,_ZdlPvm:
+   every allocation of the library and of the harness goes through the counting, failing wrappers below */
+extern void *__real_malloc (size_t); extern void *__real_calloc (size_t, size_t); extern void __real_free (void *);
+extern void *__real__Znwm (size_t); extern void *__real__Znam (size_t); extern void __real__ZdlPv (void *); extern void __real__ZdaPv (void *);
 
 static FILE *rf;
 static int nfail;
@@ -77,19 +77,19 @@ int sx_is_vm (void) { return 0; }
 void sx_note (const char *s) { (void) s; }
 void sx_garbage (void *buf, unsigned long n) { sx_bytes (buf, n, "garbage"); }
 
-/* allocation wrappers: library and harness are compiled with -Dmalloc=sx_malloc ... */
+/* allocation wrappers */
 void sx_fail_alloc_at (int k) { failk = k; alloccnt = 0; }
 long sx_alloc_count (void) { return alloccnt; }
 long sx_live_heap_blocks (void) { return liveblocks; }
 static int fails (void) { long c = alloccnt++; if (failk >= 0 && c == failk) { failk = -1; return 1; } return 0; }
-void *sx_malloc (size_t n) { void *p; if (fails ()) return NULL; p = malloc (n); if (p) liveblocks++; return p; }
-void *sx_calloc (size_t a, size_t b) { void *p; if (fails ()) return NULL; p = calloc (a, b); if (p) liveblocks++; return p; }
-void *sx_realloc (void *q, size_t n)
+void *__wrap_malloc (size_t n) { void *p; if (fails ()) return NULL; p = __real_malloc (n); if (p) liveblocks++; return p; }
+void *__wrap_calloc (size_t a, size_t b) { void *p; if (fails ()) return NULL; p = __real_calloc (a, b); if (p) liveblocks++; return p; }
+void *__wrap_realloc (void *q, size_t n)
 {
   void *p;
   if (fails ()) return NULL;
   /* like the VM's model: always move the block */
-  p = malloc (n);
+  p = __real_malloc (n);
   if (p == NULL) return NULL;
   liveblocks++;
   if (q)
@@ -102,11 +102,16 @@ void *sx_realloc (void *q, size_t n)
       size_t old = malloc_usable_size (q);
 #endif
       memcpy (p, q, old < n ? old : n);
-      free (q); liveblocks--;
+      __real_free (q); liveblocks--;
     }
   return p;
 }
-void sx_free (void *p) { if (p) liveblocks--; free (p); }
+void __wrap_free (void *p) { if (p) liveblocks--; __real_free (p); }
+void *__wrap__Znwm (size_t n) { void *p; if (fails ()) abort (); p = __real__Znwm (n); liveblocks++; return p; }
+void *__wrap__Znam (size_t n) { void *p; if (fails ()) abort (); p = __real__Znam (n); liveblocks++; return p; }
+void __wrap__ZdlPv (void *p) { if (p) liveblocks--; __real__ZdlPv (p); }
+void __wrap__ZdaPv (void *p) { if (p) liveblocks--; __real__ZdaPv (p); }
+void __wrap__ZdlPvm (void *p, size_t n) { (void) n; if (p) liveblocks--; __real__ZdlPv (p); }
 
 int sx_mem_valid (const void *p, unsigned long n)
 {
